@@ -100,9 +100,9 @@ func (w *World) boundedC14(opts *RunOpts, ex *Extra) {
 	}
 	ex.Coverage["bounded_standins"] = []interface{}{map[string]interface{}{
 		"function": "internal/x/text:(*Caser).Identifierize", "label": "BOUNDED (not a proof)",
-		"bound":    fmt.Sprintf("all strings of length 0..%d over a 14-rune alphabet (a B 7 中 - é É space _ * b ß ² ٣) covering lower, upper, lower without upper-case form, decimal digits, other numerals, caseless letters, delimiters, single- and multi-byte, x 3 capitalization lists", maxLen),
-		"posts":    "result non-empty, valid Go identifier (go/token), first rune upper-case (exported), no underscore",
-		"inputs":   total, "failures": bad, "command": cmd,
+		"bound":  fmt.Sprintf("all strings of length 0..%d over a 14-rune alphabet (a B 7 中 - é É space _ * b ß ² ٣) covering lower, upper, lower without upper-case form, decimal digits, other numerals, caseless letters, delimiters, single- and multi-byte, x 3 capitalization lists", maxLen),
+		"posts":  "result non-empty, valid Go identifier (go/token), first rune upper-case (exported), no underscore",
+		"inputs": total, "failures": bad, "command": cmd,
 	}}
 	ex.Assumptions = append(ex.Assumptions, "bounded stand-in: Identifierize checked on the real code for all strings up to the stated length over a representative alphabet; not proved beyond it")
 	if bad < 0 {
